@@ -468,6 +468,13 @@ def item_registry(repo):
         b = flat(block_after(outer, r'fn ' + fn + r'\s*\('))
         if b.replace(' ', '') != want.replace(' ', ''):
             raise ValueError(f'registry: ActivePeers::{fn} wrapper: {b[:100]}')
+    # the count the admission decision reads: ALL established connections, inbound and outbound alike
+    ln = flat(block_after(inner, r'fn\s+len\s*\(\s*&self\s*\)'))
+    if ln != 'self.connections.len()':
+        raise ValueError('registry: ActivePeersInner::len must count every connection: ' + ln[:120])
+    oln = flat(block_after(outer, r'fn\s+len\s*\(\s*&self\s*\)'))
+    if oln != 'self.inner().len()':
+        raise ValueError('registry: ActivePeers::len wrapper: ' + oln[:100])
     g = flat(block_after(inner, r'fn\s+get\s*\(\s*&self, peer_id: &PeerId\s*\)'))
     if g != 'self.connections.get(peer_id).cloned()':
         raise ValueError('registry: ActivePeersInner::get: ' + g[:100])
